@@ -138,6 +138,10 @@ pub const GEN_PRESETS: &[(usize, u8, fn() -> GenGeom)] = &[
     (13, 1, || GenGeom { rsvd: 16, root_from_end: 2, high_nibbles: true, ..Default::default() }),
     // FAT16 whose sector count needs the 32-bit field
     (15, 2, || GenGeom { rsvd: 4, ..Default::default() }),
+    // reserved bits of the FAT32 extended flags set (mirroring on; mirroring off with copy 1 active)
+    (12, 2, || GenGeom { rsvd: 32, ext_reserved: 0x0008, ..Default::default() }),
+    (12, 3, || GenGeom { rsvd: 32, ext_reserved: 0x0815, stray_active: 2, ..Default::default() }),
+    (13, 2, || GenGeom { rsvd: 16, ext_reserved: 0x07FF, mirror_off: Some(1), ..Default::default() }),
 ];
 
 /// (FAT width, cluster count, sectors per cluster)
